@@ -219,6 +219,24 @@ pub fn generate_trojan(w: &mut dyn Write, seed: u64, thorough: bool) {
                 }
             }
             crate::emit_case(w, &["trojsrv".to_string(), hex(b"other"), format!("D{}", hex(&wire)), "@n".to_string()], exec);
+            // a credential that differs from the configured one in a single bit is not the credential: every bit of the 56 key
+            // characters (first address; thorough: all)
+            if (ai == 0 || thorough) && wire.len() >= 56 {
+                for bit in 0..56 * 8 {
+                    let mut m = wire.clone();
+                    m[bit / 8] ^= 1 << (bit % 8);
+                    crate::emit_case(w, &["trojsrv".to_string(), hex(&pw), format!("D{}", hex(&m)), "@n".to_string()], exec);
+                }
+            }
+        }
+        // the request alone, nothing after it (an application that does not speak first): the connect item must come out at once
+        {
+            let args = vec!["trojenc".to_string(), hex(&pw), "1".to_string(), a.clone(), "-".to_string(), a.clone()];
+            let f: Vec<&str> = args.iter().map(|s| s.as_str()).collect();
+            if let Some(wire) = exec(&f)[0].strip_prefix("OK ").map(unhex) {
+                crate::emit_case(w, &["trojsrv".to_string(), hex(&pw), format!("D{}", hex(&wire))], exec);
+                crate::emit_case(w, &["trojsrv".to_string(), hex(&pw), dops(&wire.iter().map(|b| vec![*b]).collect::<Vec<_>>())], exec);
+            }
         }
         // server -> client udp packets and their segmentations
         if !a.starts_with("D") {
